@@ -124,7 +124,7 @@ func checkC03(c *Ctx) string {
 				return false
 			}
 			v, _ := fs.Info().Uses[id].(*types.Var)
-			return v != nil && v == dispatch.ParamNamed("mergeChan")
+			return v != nil && v == chanParam(dispatch)
 		}}
 		fl := &Flow{P: p, Node: Labeler(sendOn("ret<-true", "true"), sendOn("ret<-false", "false"), sendOn("ret<-?", "other"),
 			CallOf("UpdateTran.commit", utCommit), CallOf("Check.commit", ckCommitFn), mergeSend),
@@ -663,4 +663,36 @@ func isUpdateStateParam(p *Prog, outer *FuncSrc, obj types.Object, updState *typ
 		}
 	}
 	return true
+}
+
+// chanParam returns the (single) channel-typed parameter of a declared function.
+func chanParam(fs *FuncSrc) *types.Var {
+	if fs.Obj == nil {
+		return nil
+	}
+	ps := fs.Obj.Type().(*types.Signature).Params()
+	for i := 0; i < ps.Len(); i++ {
+		if _, ok := ps.At(i).Type().Underlying().(*types.Chan); ok {
+			return ps.At(i)
+		}
+	}
+	return nil
+}
+
+// boolParam returns the (single) bool parameter of a declared function.
+func boolParam(fs *FuncSrc) *types.Var {
+	if fs.Obj == nil {
+		return nil
+	}
+	ps := fs.Obj.Type().(*types.Signature).Params()
+	var found *types.Var
+	for i := 0; i < ps.Len(); i++ {
+		if types.Identical(ps.At(i).Type().Underlying(), types.Typ[types.Bool]) {
+			if found != nil {
+				return nil
+			}
+			found = ps.At(i)
+		}
+	}
+	return found
 }
